@@ -69,3 +69,27 @@ def check(ctx):
     ok = len(st) == 1 and isinstance(st[0].ast.value, ast.Constant) and st[0].ast.value.value == 0.0 and \
         bool(P.facts(st[0]) & aliases) and P.facts(st[0]) <= aliases
     ctx.check(ok, "T9-persist", cp, "persisted => self.incomer.timeout = 0.0", "connections kept alive by HTTP persistence are not dropped by the idle timer")
+    resolved_timeout_reaches_servant(ctx)
+
+
+def resolved_timeout_reaches_servant(ctx):
+    """Valet/Porter resolve their idle timeout (`self.timeout = timeout if timeout is not None else self.Timeout`) and hand it to
+    the Server they create: what the servant gets must be the resolved value, not the raw (possibly None) argument, or the
+    servant falls back to its own, different default and connections are dropped after that time"""
+    ctx.rule("T5-config", "Valet/Porter.__init__ pass timeout=self.timeout (the resolved value) to the servant they construct")
+    for cn in ("Valet", "Porter"):
+        f = ctx.cls("aio.http.serving", cn).own_method("__init__")
+        V = FuncView(ctx, f)
+        k = 0
+        for n in V.cfg.nodes:
+            for c in V.cfg.walk_node(n):
+                if isinstance(c, ast.Call) and any(kw.arg == "timeout" for kw in c.keywords) and \
+                        any(kw.arg in ("ha", "eha", "bufsize") for kw in c.keywords):
+                    k += 1
+                    v = [kw.value for kw in c.keywords if kw.arg == "timeout"][0]
+                    val = src(V.sym(v, n))
+                    ctx.check(val in ("self.timeout", "timeout if timeout is not None else self.Timeout", "self.Timeout if timeout is None else timeout"),
+                              "T5-config", c, "%s.__init__: servant(timeout=%s)" % (cn, val),
+                              "the servant is given the raw argument: with no explicit timeout it uses Server.Timeout (1.0 s) while "
+                              "%s.timeout reports the documented default - connections silent for longer than 1 s are dropped" % cn)
+        ctx.floor("T5-config:%s" % cn, k, 1)
